@@ -401,6 +401,9 @@ int strToInt(GenState &gs, Node *c) {
 
 int strToIntSilent(Node *c) {
   long v = std::strtol(c->tok.c_str(), NULL, 10);
+  // out-of-range literals have been reported by strToInt already; saturate so
+  // that the result stays a word and can be negated
+  if (v >= INT_MAX) v = INT_MAX - 1;
   return v;
 }
 
